@@ -26,7 +26,7 @@ def run(ctx, out):
     sup = core.build_sup()
     d0 = ctx.work.fresh("c14")
     out.rule = ("FIFOs, sockets, character devices (majors/minors incl. > 255 and > 20 bit) x modes x umask {0,022,077} x sole "
-                "source or inside a tree x fresh / existing destination entry (file, same kind, link to a file, link to a directory) x --no-clobber x both drivers; "
+                "source or inside a tree x fresh / existing destination entry (file, same kind, link to a file, link to a directory) x --no-clobber x both drivers x {none, --ownership, --fsync, --no-timestamps}; "
                 "block devices must fail; non-trivial = every case (a node is created or refused); distinct = case tuple")
     cases = []
     for kind in KINDS:
@@ -38,7 +38,9 @@ def run(ctx, out):
                             continue
                         cases.append(dict(kind=kind, umask=umask, pos=pos, existing=existing, nc=nc,
                                           mode=rng.choice([0o644, 0o600, 0o666, 0o755, 0o620, 0o777, 0o400, 0o4755]),
-                                          dev=rng.choice(DEVS), driver=rng.choice(["parfile", "parblock"])))
+                                          dev=rng.choice(DEVS), driver=rng.choice(["parfile", "parblock"]),
+                                          # options that say nothing about how a node is made
+                                          opts=rng.choice([[], [], ["--ownership"], ["--ownership"], ["--fsync"], ["--no-timestamps"], ["--ownership", "--fsync"]])))
     minputs, obs = [], []
     for k, c in enumerate(cases):
         d = os.path.join(d0, "c%d" % k)
@@ -67,7 +69,7 @@ def run(ctx, out):
             open(os.path.join(d, "elsewhere.d", "inside"), "wb").write(b"bystander")
             os.symlink(os.path.join(d, "elsewhere.d"), tpath)
         before = os.lstat(tpath) if c["existing"] else None
-        argv = [ctx.bins["xcp"], "--driver", c["driver"], "-w", "2"] + (["--no-clobber"] if c["nc"] else []) + argv_tail
+        argv = [ctx.bins["xcp"], "--driver", c["driver"], "-w", "2"] + (["--no-clobber"] if c["nc"] else []) + c["opts"] + argv_tail
         r = xcp.run_supervised(sup, argv, d, d, tag="n", umask=c["umask"], timeout_ms=20000)
         rep = dict(case={a: (oct(b) if a in ("mode", "umask") else b) for a, b in c.items()}, argv=argv, exit=r.exit,
                    stderr=r.stderr[-300:])
